@@ -111,7 +111,10 @@ class Injector:
             inj.n_fits += 1
             inj.fit_index = inj.n_fits
             inj.attempt = 0
-            inj.roles[inj.fit_index] = "median" if tau == 0.5 else ("lower" if tau < 0.5 else "upper")
+            try:
+                inj.roles[inj.fit_index] = "median" if tau == 0.5 else ("lower" if tau < 0.5 else "upper")
+            except (TypeError, ValueError):  # a fit that solves several quantiles in one call
+                inj.roles[inj.fit_index] = "several-quantiles"
             try:
                 return orig_fm(self_, model, df_X, df_y, tau, weights, normalize_weights)
             finally:
